@@ -99,6 +99,11 @@ def run_batch(srv, batch, kind, tag, patience=0.3):
                 continue
             deadline = max(deadline, time.time() + 0.12)
             k, f = N.dec(buf)
+            if (kind == "WRQ" and k == "DATA") or (kind == "RRQ" and k == "ACK"):
+                # wrong direction: no answer to this request but a datagram of an earlier mini-transfer on this host
+                # whose client port was re-used (downloads above 4 KiB are cut short and may have DATA in flight)
+                r["foreign"] = r.get("foreign", 0) + 1
+                continue
             if r["reply"] is None:
                 r["reply"] = k
                 r["src"] = src[:2]
